@@ -1,9 +1,138 @@
 import Driver.Proto
+import ScrapliModel.Netconf.Request
 namespace Driver.C03
-open Scrapli
+open Scrapli Scrapli.Netconf Scrapli.Netconf.Req
 
-/-- line-protocol handler for property C03 (arguments after the leading `c03` token) -/
+namespace C03
+
+def ver (s : String) : Option Version :=
+  if s == "1.0" then some .v10 else if s == "1.1" then some .v11 else none
+
+/-- decidable form of `Legal11` (Lemmas/Request.lean) -/
+def legal11 (rs : List Bytes) : Bool := rs.all fun r => !r.isEmpty && r.length < 2 ^ 32
+
+def startsNonWsB : Bytes → Bool
+  | [] => false
+  | b :: _ => !isXmlWs b
+
+/-- decidable form of `Legal10 delim` -/
+def legal10 (rs : List Bytes) : Bool :=
+  rs.all fun r => startsNonWsB r &&
+    !isInfix Gen.Netconf.v1Dot0Delim (r ++ Gen.Netconf.v1Dot0Delim.dropLast)
+
+def legal (v : Version) (rs : List Bytes) : Bool :=
+  match v with
+  | .v10 => legal10 rs
+  | .v11 => legal11 rs
+
+/-- hypothesis of `header_only_prefix` -/
+def startsTag : Bytes → Bool
+  | 60 :: c :: _ => c != 47
+  | _ => false
+
+/-- `body = rpcBody id inner` for some `inner`? -/
+def stripRpc (id : Nat) (body : Bytes) : Option Bytes :=
+  let pre := rpcOpenPrefix ++ (decDigits id ++ [34, GTc])
+  if hasPrefix body pre && hasPrefix body.reverse rpcClose.reverse
+      && pre.length + rpcClose.length ≤ body.length then
+    some ((body.drop pre.length).take (body.length - pre.length - rpcClose.length))
+  else none
+
+/-- the session byte stream with the self-closing rewrite of the code AS IT IS (only used to
+classify a disagreement as the recorded defect) -/
+def wireAsIs (v : Version) (sc nh : Bool) (bodies : List Bytes) : Bytes :=
+  let raw (body : Bytes) : Bytes :=
+    let msg := if nh then body else Gen.Netconf.xmlHeader ++ body
+    if sc then forceSelfClosingGo Match.eligibleAsIs msg else msg
+  let framed (msg : Bytes) : Bytes :=
+    match v with
+    | .v10 => msg ++ Gen.Netconf.v1Dot0Delim
+    | .v11 => HASH :: (decDigits msg.length ++ LF :: (msg ++ [LF, HASH, HASH]))
+  clientHello v ++ ret ++
+    (bodies.map fun b => framed (raw b) ++ ret ++ (match v with | .v10 => [] | .v11 => ret)).flatten
+
+end C03
+
+open C03 in
+/-- line-protocol handler for property C03 (arguments after the leading `c03` token)
+
+* `fsc <hex>` → `dom scanner go asis`: the single-pass scanner (the model the theorems are about),
+  the statement-by-statement model of the repaired Go function, the same for the code as it is;
+  `dom` = scanner and statement-by-statement model agree on this input
+* `chk <in> <out>` → `1` iff the proved checker accepts `Rewrites in out`
+* `session <v> <sc> <nh> <inners>` → `dom wire raws framed spec` : the model's byte stream of a
+  session whose k-th marshalled payload is `inners[k]` (message-ids from `initialMessageID`),
+  the reported inputs, the framed inputs, and whether the strict decoder recovers the inputs
+  from the model wire (theorem `session_decodes`, evaluated)
+* `session-asis <v> <sc> <nh> <inners>` → the wire with the rewrite of the code as it is
+* `wire <v> <sc> <nh> <bodies>` → same for explicit marshalled rpc bodies
+* `decode <v> <wire>` → `none` | `some <hello> <msgs>` (strict RFC decoder on observed bytes)
+* `body <id> <hex>` → `1 <inner>` if the bytes are `rpcBody id inner`, else `0 -`
+* `msgid <hex>` → message-id read back by `msgIdOf` (`-` if none)
+-/
 def handleC03 : List String → String
+  | ["fsc", h] =>
+    match fromHex h with
+    | some b =>
+      let sc := forceSelfClosing b
+      let go := forceSelfClosingGo Match.eligible b
+      s!"{b2s (sc == go)} {toHex sc} {toHex go} {toHex (forceSelfClosingGo Match.eligibleAsIs b)}"
+    | none => "bad-op"
+  | ["chk", a, b] =>
+    match fromHex a, fromHex b with
+    | some x, some y => b2s (checkRewrite (x.length + y.length + 1) x y)
+    | _, _ => "bad-op"
+  | ["session", v, sc, nh, inners] =>
+    match ver v, hexList inners with
+    | some v, some inners =>
+      let sc := s2b sc
+      let nh := s2b nh
+      let bodies := sessionBodies Gen.Netconf.initialMessageID inners
+      let ser := bodies.map (serialize v sc nh)
+      let rs := ser.map (·.1)
+      let w := session v sc nh inners
+      let dom := legal v rs
+      let spec := strictDecode v w == some rs
+      s!"{b2s dom} {toHex w} {showHexList rs} {showHexList (ser.map (·.2))} {b2s spec}"
+    | _, _ => "bad-op"
+  | ["session-asis", v, sc, nh, inners] =>
+    match ver v, hexList inners with
+    | some v, some inners =>
+      toHex (wireAsIs v (s2b sc) (s2b nh) (sessionBodies Gen.Netconf.initialMessageID inners))
+    | _, _ => "bad-op"
+  | ["wire", v, sc, nh, bodies] =>
+    match ver v, hexList bodies with
+    | some v, some bodies =>
+      let sc := s2b sc
+      let nh := s2b nh
+      let ser := bodies.map (serialize v sc nh)
+      let rs := ser.map (·.1)
+      let w := wire v sc nh bodies
+      let dom := legal v rs && (!sc || nh || bodies.all startsTag)
+      let spec := strictDecode v w == some rs
+      s!"{b2s dom} {toHex w} {showHexList rs} {showHexList (ser.map (·.2))} {b2s spec}"
+    | _, _ => "bad-op"
+  | ["decode", v, w] =>
+    match ver v, fromHex w with
+    | some v, some w =>
+      match strictDecodeFull v w with
+      | none => "none"
+      | some (hello, ms) => s!"some {toHex hello} {showHexList ms}"
+    | _, _ => "bad-op"
+  | ["body", id, h] =>
+    match id.toNat?, fromHex h with
+    | some id, some b =>
+      match stripRpc id b with
+      | some inner => s!"1 {toHex inner}"
+      | none => "0 -"
+    | _, _ => "bad-op"
+  | ["msgid", h] =>
+    match fromHex h with
+    | some b =>
+      match msgIdOf b with
+      | some n => toString n
+      | none => "-"
+    | none => "bad-op"
   | _ => "bad-op"
 
 end Driver.C03
